@@ -38,7 +38,10 @@ def thread_desc(rec, full):
     base = full.split("~")[0]
     for (name, label, daemon, stack) in rec.blocked:
         if name.split("~")[0] == base:
-            return f"blocked:{stack[0] if stack else '-'}/{_lk(label)}"
+            fn = stack[0] if stack else "-"
+            if fn.startswith("__") and len(stack) > 1:
+                fn = f"{stack[1]}.{fn}"
+            return f"blocked:{fn}/{_lk(label)}"
     for (name, exc, msg, funcs) in rec.thread_errors:
         if name.split("~")[0] == base:
             return f"dead:{exc}@{funcs[-1] if funcs else '?'}"
